@@ -20,6 +20,7 @@ mod namerc;
 mod names;
 mod parse;
 mod sb;
+mod resp;
 mod rt;
 mod scalars;
 mod strs;
@@ -58,6 +59,7 @@ fn main() {
         "rt-replay" => rt::replay(rest),
         "rt-record" => rt::record(rest),
         "rt-typed" => rt::typed(rest),
+        "resp-record" => resp::record(rest),
         "async-replay" => asyncx::replay(rest),
         "exec-record" => exec::record(rest),
         "coerce-replay" => coerce::replay(rest),
